@@ -80,6 +80,32 @@ class Recorder(object):
     def __exit__(self, *a):
         self.SK.Threefish = self.orig
 
+def trace_ok(obs, exp):
+    """the observed tweak sequence equals the specification's, except that whole *initialisation* stages (key, cfg, prs, PK, kdf,
+    nonce: types below 'msg') may be absent -- an implementation may legitimately start from a precomputed / cached chaining
+    value, as the Skein reference code does with its IV tables.  Message and output stages must match block for block."""
+    def stages(log):
+        out = []
+        for tw in log:
+            t = (tw >> 120) & 0x3f
+            if out and out[-1][0] == t and not (tw >> 126) & 1:
+                out[-1][1].append(tw)
+            else:
+                out.append((t, [tw]))
+        return out
+    so, se = stages(obs), stages(exp)
+    if [s for s in so if s[0] >= 48] != [s for s in se if s[0] >= 48]:
+        return False
+    io = [s for s in so if s[0] < 48]; ie = [s for s in se if s[0] < 48]
+    j = 0
+    for s in io:                               # every observed init stage must be one of the expected ones, in order
+        while j < len(ie) and ie[j] != s:
+            j += 1
+        if j == len(ie):
+            return False
+        j += 1
+    return True
+
 def decode(tw):
     return {'pos': tw & ((1 << 96) - 1), 'level': (tw >> 112) & 0x7f, 'bitpad': (tw >> 119) & 1, 'type': (tw >> 120) & 0x3f, 'first': (tw >> 126) & 1, 'final': (tw >> 127) & 1}
 
@@ -146,7 +172,7 @@ def run(case, ctx, rng):
         ctx.eq('skein==spec', got, want, **det)
         if not is_exc(got):
             ctx.eq('output-length', len(got), (No + 7) // 8, **det)
-            ctx.eq('tweak-trace==spec', [hex(x) for x in rec.log], [hex(x) for x in wtrace], **det)
+            ctx.check('tweak-trace==spec', trace_ok(rec.log, wtrace), [hex(x) for x in rec.log], [hex(x) for x in wtrace], **det)
             grammar(ctx, rec.log, nb, det)
     elif k == 'tree':
         Yl, Yf, Ym = case['Y']
@@ -167,7 +193,7 @@ def run(case, ctx, rng):
             got = call(lambda: Skein(Nb, Nb, **ckw)(M))
         ctx.eq('tree==spec', got, want, **det)
         if not is_exc(got):
-            ctx.eq('tweak-trace==spec', [hex(x) for x in rec.log], [hex(x) for x in wtrace], **det)
+            ctx.check('tweak-trace==spec', trace_ok(rec.log, wtrace), [hex(x) for x in rec.log], [hex(x) for x in wtrace], **det)
     elif k == 'siblings':
         # Skein objects of different state sizes / keys but the same output length and configuration, alive together
         from vmon.core import siblings
@@ -193,7 +219,7 @@ def run(case, ctx, rng):
             got = call(lambda: UBI(self_tf(), G, Tweak(Position=pos, Type='msg'))(M, L) if L is not None else UBI(self_tf(), G, Tweak(Position=pos, Type='msg'))(M))
         ctx.eq('ubi-position-carry==spec', got, want, **det)
         if not is_exc(got):
-            ctx.eq('tweak-trace==spec', [hex(x) for x in rec.log], [hex(x) for x in wtrace], **det)
+            ctx.check('tweak-trace==spec', trace_ok(rec.log, wtrace), [hex(x) for x in rec.log], [hex(x) for x in wtrace], **det)
 
 def self_tf():
     import crysp.skein as SK
